@@ -169,7 +169,7 @@ class Worker:
 
     def __call__(self, req):
         fname = req["queue"]
-        ptext = json.dumps(req["body"])
+        ptext = json.dumps(canon(req["body"]))
         k = self.calls.get((fname, ptext), 0)
         self.calls[(fname, ptext)] = k + 1
         o = self.outcome(fname, ptext, k)
